@@ -276,6 +276,10 @@ func init() {
 		st.assume(sImp(sGt(sx("slen", args[0].S), "0"), sGt(r.S, "0")))
 		return []Value{r}
 	})
+	reg(".error.Error", true, func(v *FnV, st *State, call *ast.CallExpr, recv *Value, args []Value) []Value {
+		// Error() of an arbitrary error value: some string; treated as free of side effects
+		return []Value{st.freshVal("errmsg", tString)}
+	})
 	reg("errors.New", true, func(v *FnV, st *State, call *ast.CallExpr, recv *Value, args []Value) []Value {
 		return []Value{v.freshError(st)}
 	})
